@@ -305,6 +305,11 @@ func C07(tier string) {
 			fams = append(fams, family{sp, sp.Base + "/exclusions", dev + 1, func(kind, dep, target, option string) bool {
 				return kind == "decor" && strings.HasPrefix(option, "excl:")
 			}})
+			// management against artifact keys: a managed version applies to the plain artifact only, not to the same
+			// group:artifact with a classifier or another type
+			fams = append(fams, family{sp, sp.Base + "/management+keys", dev + 1, func(kind, dep, target, option string) bool {
+				return kind == "mgmt" || (kind == "decor" && (strings.HasPrefix(option, "classifier:") || strings.HasPrefix(option, "type:")))
+			}})
 			// scopes and management on the template
 			fams = append(fams, family{sp, sp.Base + "/scopes+management", dev + 1, func(kind, dep, target, option string) bool {
 				return kind == "mgmt" || (kind == "decor" && (strings.HasPrefix(option, "scope:") || option == "optional"))
